@@ -34,10 +34,10 @@ class CustomFailure(Exception):
 
 
 EXCS = [ValueError, KeyError, TypeError, OSError, RuntimeError, MemoryError, RecursionError, AssertionError, UnicodeError, ZeroDivisionError, CustomFailure]
-GARBAGE = ["empty", "truncated", "binary", "array", "delta-no-baseline", "foreign", "bigline", "dir", "scalar", "nul",
+GARBAGE = ["empty", "truncated", "binary", "array", "delta-no-baseline", "foreign", "bigline", "dir", "scalar", "nul", "header+list-body", "header+scalar-body",
            # snapshots that carry every schema stamp but are damaged at field level (they are real snapshots as far as the loader
            # can tell, so only "the turn completes" is judged for them, not equality with an empty directory)
-           "stamped:edges-list", "stamped:edges-scalar", "stamped:edge-weight-null", "stamped:edge-weight-text", "stamped:edge-weight-object", "stamped:nodes-list", "stamped:store-garbage"]
+           "stamped:edges-list", "stamped:edges-scalar", "stamped:edge-weight-null", "stamped:edge-weight-text", "stamped:edge-weight-object", "stamped:nodes-list", "stamped:store-garbage", "stamped:edge-attrs-null", "stamped:edge-not-an-object", "stamped:meta-null"]
 PARTIAL = tuple(g for g in GARBAGE if g.startswith("stamped:"))
 SITES = ["boot-failpoint", "boot-garbage", "gel-merge-candidates", "gel-apply-merge", "gel-split-candidates", "gel-apply-split", "gel-promote", "gel-apply-promotion",
          "reflect-compute", "reflect-write", "reflect-telemetry", "llm-adapter-build", "llm-adapter-ci-provider", "hybrid-rerank", "fusion", "mmr", "quality-trace",
@@ -227,6 +227,10 @@ def plant_garbage(d, kind, rng, name=None):
         open(p, "w").write("42")
     elif kind == "nul":
         open(p, "wb").write(b"\x00" * 100)
+    elif kind == "header+list-body":
+        open(p, "w").write('{"schema":"snapshot:v1","mode":"full","etag_to":"42","codec":"none","level":0}\n[1, 2, {"version_etag": "9"}]')
+    elif kind == "header+scalar-body":
+        open(p, "w").write('{"schema":"snapshot:v1","mode":"full","etag_to":"77","codec":"none","level":0}\n"just a string"')
     elif kind.startswith("stamped:"):
         import json as _json
         good_edge = {"src": "x1", "dst": "x2", "weight": 0.5, "rel": "coact", "attrs": {"coact": 1}}
@@ -245,6 +249,12 @@ def plant_garbage(d, kind, rng, name=None):
             gel["edges"]["x1→x2"]["weight"] = {"v": 1}
         elif what == "nodes-list":
             gel["nodes"] = [1, 2]
+        elif what == "edge-attrs-null":
+            gel["edges"]["x1→x2"]["attrs"] = None
+        elif what == "edge-not-an-object":
+            gel["edges"]["x1→x2"] = [1, 2]
+        elif what == "meta-null":
+            gel["meta"] = None
         elif what == "store-garbage":
             store = {"weights": [{"target_kind": "node"}, 5, None, {"target_kind": "node", "target_id": "n:a", "attr": "weight", "value": "x"}]}
         open(p, "w", encoding="utf-8").write(_json.dumps({"schema_version": "v1", "version_etag": "5", "graph_schema_version": "v1.1", "gel": gel, "graph": gel, "store": store}, ensure_ascii=False))
